@@ -171,6 +171,8 @@ pub struct World {
     /// both deployed fee pools (the second one is only used after the engine owner switches to it)
     pub pools: [Addr; 2],
     pub idx_pool2: usize,
+    /// a foreign registry (same code) that lists the deployment's vAMMs; only a vAMM's own setting may point at it
+    pub fund2: Addr,
     pub vamms: Vec<Addr>,
     pub oracles: Vec<Addr>,
     pub keys: Vec<String>,
@@ -645,6 +647,14 @@ impl World {
         let fee_pool2 = app
             .instantiate_contract(fee_code, Addr::unchecked(&owner), &fp::InstantiateMsg {}, &[], "fee_pool2", None)
             .map_err(e)?;
+        // a second registry of the same code in which every vAMM of the deployment is listed (up to its capacity): a vAMM may be
+        // pointed at it, the engine never is. Deployed last, so no earlier address changes.
+        let fund2 = app
+            .instantiate_contract(fund_code, Addr::unchecked(&owner), &fund::InstantiateMsg { engine: engine.to_string() }, &[], "fund2", None)
+            .map_err(e)?;
+        for v in vamms.iter().take(3) {
+            app.execute_contract(Addr::unchecked(&owner), fund2.clone(), &fund::ExecuteMsg::AddVamm { vamm: v.to_string() }, &[]).map_err(e)?;
+        }
         let mut accounts = users.clone();
         accounts.push(engine.to_string());
         accounts.push(fund_addr.to_string());
@@ -680,6 +690,7 @@ impl World {
             fund: fund_addr,
             pools: [fee_pool.clone(), fee_pool2],
             idx_pool2,
+            fund2,
             fee_pool,
             vamms,
             oracles,
